@@ -7,6 +7,10 @@ import "github.com/maypok86/otter/v2/internal/generated/node"
 // The lossy read buffer is outside the technique's reach (C17, interleavings). Its operations get
 // assumed contracts that say only what the sequential callers rely on: no visible state changes.
 
+//@ func NewStriped : C05 C01
+//@   fresh
+//@   ensures [a-buffer-exists] result != nil
+
 //@ func (*Striped).Add : C01 C03 C12 C20
 //@   assumed C17 is not applicable; recording a read changes nothing the cache operations observe
 //@   ensures [status-range] result == Success || result == Failed || result == Full
